@@ -4,7 +4,7 @@ EXTENDS Population, Json
 CONSTANTS Deep, Rounds
 VARIABLES c, n
 (* single-schema inputs; a renamed SELECT as attribute type is left out (the encoding of its values is disputed) *)
-Covered(ch) == ~ch.aux /\ ~(ch.ts.k = "chain" /\ ch.ts.of = "select")
+Covered(ch) == ~ch.aux /\ ch.inh # "noents" /\ ~(ch.ts.k = "chain" /\ ch.ts.of = "select")
 Init == c \in {ch \in Choices(Deep) : Covered(ch)} /\ n \in 0..Rounds
 Next == UNCHANGED <<c, n>>
 Emit == PrintT("@@CASE " \o ToJson([choice |-> c, n |-> n, schema |-> Valid(c), conforming |-> Conforming(Valid(c)), pop |-> Pop(Valid(c), n), states |-> States(Pop(Valid(c), n), n)]))
